@@ -263,6 +263,8 @@ type syncer struct {
 	stages   []string
 	soft     []*outcome // violations after which the run can go on
 	lateDone bool
+	hdrEdge  bool
+	blkEdge  bool
 	dir      string // database directory of a disk backend
 }
 
@@ -595,6 +597,23 @@ func (s *syncer) headersStage() *outcome {
 			return &outcome{"sync:headers-stage-never-completes", fmt.Sprintf("header height %d, sync point %d, source height %d, %d steps", hh, s.p, s.src.n, steps)}
 		}
 		x := s.r.Intn(10)
+		if s.sc.Restart["headers"] > 0 && !s.hdrEdge && hh < s.p && hh+8 >= s.p && max(1, s.sc.Trusted) <= hh+1 {
+			// stage boundary: stop exactly at the sync point (one header short of
+			// the end of the stage) and restart there
+			s.hdrEdge = true
+			s.op("AddHeaders(%d..%d)", hh+1, s.p)
+			err, pv := guard(func() error { return s.mod.AddHeaders(s.src.hdr[hh+1 : s.p+1]...) })
+			if pv != nil {
+				return &outcome{"sync:AddHeaders-panics:" + normMsg(pv), fmt.Sprint(pv)}
+			}
+			if err != nil {
+				return &outcome{"sync:correct-headers-rejected", fmt.Sprintf("AddHeaders(%d..%d) at header height %d: %v", hh+1, s.p, hh, err)}
+			}
+			if o := s.restart("headers"); o != nil {
+				return o
+			}
+			continue
+		}
 		if !s.sc.Chaos || x < 6 {
 			// correct chunk with overlap (duplicates of known headers)
 			from := hh + 1
@@ -1035,6 +1054,14 @@ func (s *syncer) blocksStage() *outcome {
 			}
 			if !s.mod.NeedBlocks() || s.mod.BlockHeight() != bh {
 				return &outcome{"sync:wrong-block-accepted:" + kind, fmt.Sprintf("module block height %d -> %d after a wrong block (%s)", bh, s.mod.BlockHeight(), kind)}
+			}
+			continue
+		}
+		if next == s.p && s.sc.Restart["blocks"] > 0 && !s.blkEdge {
+			// stage boundary: restart with only the last block missing
+			s.blkEdge = true
+			if o := s.restart("blocks"); o != nil {
+				return o
 			}
 			continue
 		}
